@@ -216,6 +216,8 @@ class Instance:
     bounded_n: int = 20          # native evaluations in the quick tier (x10 thorough) for bounded instances
     weight: float = 1.0          # scheduling hint (heavier first)
     wall: float = None           # wall-clock limit of the whole instance (s)
+    native_n: int = 8            # native run-time evaluations of the same contract in a proof instance (bounded stand-in)
+    scales: tuple = (1.0,)       # input magnitudes cycled through by the native evaluations
 
     @property
     def key(self):
@@ -388,8 +390,9 @@ def _exc_str(e):
     return '%s: %s' % (type(e).__name__, str(e)[:300])
 
 
-def _native_inputs(inst, env, seed):
-    B = Builder('conc', env=env, rng=random.Random(seed), scale=inst.scale, rtol=inst.rtol, atol=inst.atol)
+def _native_inputs(inst, env, seed, scale=None):
+    B = Builder('conc', env=env, rng=random.Random(seed), scale=inst.scale if scale is None else scale,
+                rtol=inst.rtol, atol=inst.atol)
     inp = inst.make(B)
     return B, inp
 
@@ -402,10 +405,10 @@ def _snapshot(arrays):
     return snap
 
 
-def native_run(inst, env, seed=0, writable=False):
+def native_run(inst, env, seed=0, writable=False, scale=None):
     """Run the real function natively on the concrete inputs described by env.
     -> dict(valid, outcome=('ok', result)|('exc', e), failed=[names], mutated=[arg names], inputs)"""
-    B, inp = _native_inputs(inst, env, seed)
+    B, inp = _native_inputs(inst, env, seed, scale)
     res = {'valid': B.valid, 'failed_requires': B.failed_requires, 'inputs': B.used_env}
     if not B.valid:
         return res
@@ -595,6 +598,48 @@ def run_instance(inst, tier='quick', seed=0, replay_dir=None):
     except Exception as e:  # noqa  checker crash inside this instance
         rep['error'] = ''.join(traceback.format_exception(type(e), e, e.__traceback__))[-3000:]
     rep['infeasible'] = ex.ninfeasible
+    # ---- bounded stand-in inside the proof instance: the same contract, checked at run time on the real
+    #      function with floats.  Decides nothing for all inputs; it is what remains when an edit of the
+    #      repository moves the code out of the symbolic engine's reach (UNDECIDED above).
+    nat_stats = {'evaluations': 0, 'valid': 0, 'clauses': 0}
+    rep['native'] = nat_stats
+    try:
+        n = inst.native_n * (4 if tier == 'thorough' else 1)
+        already = {v['obligation'].split('[')[0] for v in rep['violations']}
+        for i in range(n):
+            sc = inst.scales[i % len(inst.scales)] * inst.scale
+            nat = native_run(inst, {}, seed * 104729 + 31 * i + 7, scale=sc)
+            nat_stats['evaluations'] += 1
+            if not nat.get('valid'):
+                continue
+            nat_stats['valid'] += 1
+            nat_stats['clauses'] += len(nat.get('checked', []))
+            failed = list(nat.get('failed', []))
+            if nat.get('mutated') and inst.frame:
+                failed.append('frame[%s]' % ','.join(nat['mutated']))
+            failed = [f for f in failed if f.split('[')[0] not in already]
+            if failed:
+                name = failed[0]
+                payload = {'property': inst.prop, 'function': inst.func, 'instance': inst.name, 'obligation': name,
+                           'kind': 'bounded', 'seed': seed * 104729 + 31 * i + 7, 'scale': sc,
+                           'inputs': _jsonable(nat['inputs']), 'native_failed': failed,
+                           'reproduced_by': 'native run-time contract evaluation (bounded stand-in)'}
+                out = nat.get('outcome')
+                if out is not None:
+                    payload['native_outcome'] = _exc_str(out[1]) if out[0] == 'exc' else _jsonable(
+                        [(p, np.asarray(v) if not isinstance(v, str) else v) for p, v in flatten(out[1])][:6])
+                fn = None
+                if replay_dir:
+                    os.makedirs(replay_dir, exist_ok=True)
+                    fn = os.path.join(replay_dir, _safe('native__%s__%s__%s' % (inst.func.split(':')[-1], inst.name, name)) + '.json')
+                    with open(fn, 'w') as fh:
+                        json.dump(payload, fh, indent=1)
+                rep['violations'].append({'obligation': name, 'kind': 'bounded', 'confirmed': True, 'replay': fn,
+                                          'no_input': False, 'has_uf': False, 'backend': 'native',
+                                          'exception': payload.get('native_outcome') if out and out[0] == 'exc' else None})
+                break
+    except Exception as e:  # noqa
+        rep['error'] = (rep.get('error') or '') + ''.join(traceback.format_exception(type(e), e, e.__traceback__))[-2000:]
     rep['wall'] = round(time.time() - t0, 3)
     return rep
 
